@@ -32,7 +32,8 @@ RULE = ("per run one BEC2 file: non-empty ordered subset of {customer-key, ECC(s
 REAL = ["bec2format.bec2file (Bec2File, auth blocks, encryptors)", "bec2format.bf3file", "bec2format.crypto registry",
         "register_crypto_plugin (AES adapter, ECC proxies)", "pyaes", "ecdsa"]
 STUBS = ["medium: SimFS", "RNG: SimRng behind register_random_bytes and os.urandom shims"]
-PROBES = ["write-after-crashed-attempt", "write-after-failed-attempt", "keystore-arm", "writer-keystore", "session-key-trailing-zero", "crc-low-byte-zero", "crc-high-byte-zero", "key-drawn-from-rng",
+PROBES = ["writer-list-reused-for-reading", "encrypt-only-entry-in-decryptor-list", "same-object-second-recipient",
+          "write-after-crashed-attempt", "write-after-failed-attempt", "keystore-arm", "writer-keystore", "session-key-trailing-zero", "crc-low-byte-zero", "crc-high-byte-zero", "key-drawn-from-rng",
           "three-blocks", "subset-leaves-block-opaque", "wrong-key-arm-raised", "wrong-key-arm-returned",
           "encrypted-config", "default-recipient-ecc", "customer-key-present"]
 ASSUMPTIONS = ["customer key position 0 (the only position that leaves the wrapped session key intact)"]
@@ -183,6 +184,62 @@ def run(case):
                                  "block %d (%s) without decryptor came back as %r, expected opaque bytes %s"
                                  % (i, bspec["t"], blk, val.hex()), narrow)
             out.ev("read", sub, "equal")
+        # writer-list arm: the list used for writing (it holds encrypt-only entries such as a public-key-only
+        # ECC encryptor) is reused for reading together with the decryptors, in a seeded order
+        if able and case.get("only_subset") is None:
+            import random as _r
+            nev += 1
+            fs.restart()
+            mixed = list(w.wenc) + [w.decryptors[j] for j in able if w.decryptors[j] not in w.wenc]
+            _r.Random(case["wrong"] * 7919 + len(mixed)).shuffle(mixed)
+            out.probes["writer-list-reused-for-reading"] += 1
+            if any(type(x) is bf.EccEncryptor for x in mixed):
+                out.probes["encrypt-only-entry-in-decryptor-list"] += 1
+            try:
+                got = files.read_file("bec2", fs, env, name, "path", True, None, mixed)
+            except SimCrash:
+                raise
+            except Exception as e:
+                out.fail("C02.read-raises", "mixed-list-%s@%s" % (type(e).__name__, exc_site(e)),
+                         "reading with the writer's encryptor list plus the decryptors (order %s) raised %s: %s"
+                         % ([type(x).__name__ for x in mixed], type(e).__name__, e), dict(case))
+            else:
+                diff = files.compare_read("bec2", w, got, with_key=True)
+                if diff:
+                    out.fail("C02.read-differs", "mixed-list-" + diff[0], "mixed-list read: " + diff[1], dict(case))
+                else:
+                    for i, (bspec, blk) in enumerate(zip(case["blocks"], got.auth_blocks.values())):
+                        if i in able:
+                            m = _block_mismatch(bspec, blk, bf)
+                            if m:
+                                out.fail("C02.blocks-differ", "mixed-list-" + bspec["t"],
+                                         "mixed-list read (order %s): %s" % ([type(x).__name__ for x in mixed], m),
+                                         dict(case))
+        # second-recipient arm: the same object written again for another ECC recipient
+        eccx = [(i, b) for i, b in enumerate(case["blocks"]) if b["t"] == "ecc" and b["recip"] is not None]
+        if eccx and case.get("only_subset") is None:
+            nev += 1
+            i, b = eccx[0]
+            out.probes["same-object-second-recipient"] += 1
+            priv2 = prov.make_priv(env, (b["recip"] * 3 + 12345) % (prov.refp256.N - 2) + 1)
+            wenc2 = [x for x in w.wenc if not (isinstance(x, bf.EccEncryptor) and x.key_selector == b["sel"])]
+            wenc2.append(bf.EccEncryptor(b["sel"], priv2.public_key))
+            try:
+                env.install_rng(w.rng)
+                w.obj.write_file("second.bec2", wenc2)
+                fs.restart()
+                got = files.read_file("bec2", fs, env, "second.bec2", "path", True, None,
+                                      [bf.EccDecryptor(b["sel"], priv2)])
+            except SimCrash:
+                raise
+            except Exception as e:
+                out.fail("C02.read-raises", "second-recipient-%s@%s" % (type(e).__name__, exc_site(e)),
+                         "the same Bec2File written again for another ECC recipient cannot be read by that "
+                         "recipient: %s: %s" % (type(e).__name__, e), dict(case))
+            else:
+                diff = files.compare_read("bec2", w, got, with_key=True)
+                if diff:
+                    out.fail("C02.read-differs", "second-recipient-" + diff[0], diff[1], dict(case))
         # key-store arm: decryptors for the other key selectors (unrelated keys) listed before the
         # matching ones - "given matching decryptors" still holds
         eccs = [b for b in case["blocks"] if b["t"] == "ecc"]
